@@ -225,6 +225,137 @@ def _project(x, model, magnitude):
     return {"k": k, "u": vec, "sv": sv, "rg": rg, "cx": cx, "v": out, "ex": bool(exact)}, coherent
 
 
+# ------------------------------------------------------------------ exponent space (powerx)
+_PR = (2, 3, 5, 127)
+
+
+def _qf(vec):
+    """float value of prod primes ** vec (vec: Fractions)"""
+    return math.exp(sum(float(e) * math.log(p) for p, e in zip(_PR, vec)))
+
+
+def _qout(vec):
+    out = []
+    for f in vec:
+        if f is None or not _safe(f):
+            out.append([0, 0])
+        else:
+            out.append([f.numerator, f.denominator])
+    return out
+
+
+def _qin(v):
+    return [Fraction(n, d) for n, d in v]
+
+
+def _project_x(x, model):
+    """observed result of a power with a general exponent, in exponent space: exponent of every atom in the unit (ue),
+    units.dimensions over <<length, time, angle, energy>> (dq), prime exponents of units.base_value (sv), of every number
+    (lv) and of every SI magnitude d * base_value (si).  Floats are matched to the vectors the specification expects
+    (rtol 1e-12; base_value 1e-11), else the sentinel [0, 0] travels."""
+    import sympy
+
+    from unyt import dimensions as D
+
+    ua = _U["ua"]
+    na = len(_U["names"])
+    bare = not isinstance(x, ua)
+    ue = [Fraction(0)] * na
+    dq = [Fraction(0)] * 4
+    coherent = True
+    bv = 1.0
+    factor = 1.0
+    sv = [Fraction(0)] * 4
+    rg = 0
+    if not bare:
+        units = x.units
+        rg = _reg_id(units)
+        want_ue = _qin(model["u"]) if model and model.get("k") == "l" else None
+        for b, e in units.expr.as_powers_dict().items():
+            if getattr(b, "is_Number", False):
+                if b != 1:
+                    coherent = False
+                continue
+            if str(b) == "dimensionless":
+                continue
+            i = _U["idx"].get(str(b))
+            if i is None:
+                coherent = False
+                continue
+            if getattr(e, "is_Rational", False):
+                ue[i] = Fraction(int(e.p), int(e.q))
+            else:
+                # a float exponent: the rational the specification expects when it is that number, else unreadable
+                fe = float(e)
+                if want_ue is not None and math.isclose(fe, float(want_ue[i]), rel_tol=1e-14, abs_tol=0.0):
+                    ue[i] = want_ue[i]
+                else:
+                    ue[i] = None
+                    coherent = False
+        # units.dimensions over the model's dimension groups (energy is a group of its own: mass appears only through it)
+        dims = units.dimensions
+        pd = dims.as_powers_dict() if dims != 1 else {}
+        ex = {}
+        for b, e in pd.items():
+            if getattr(b, "is_Number", False):
+                continue
+            ex[b] = sympy.Rational(e) if getattr(e, "is_Rational", False) else None
+        known = {D.mass, D.length, D.time, D.angle}
+        if any(b not in known for b in ex) or any(v is None for v in ex.values()):
+            coherent = False
+            dq = [None] * 4
+        else:
+            g = {b: Fraction(int(v.p), int(v.q)) for b, v in ex.items()}
+            m = g.get(D.mass, Fraction(0))
+            dq = [g.get(D.length, Fraction(0)) - 2 * m, g.get(D.time, Fraction(0)) + 2 * m, g.get(D.angle, Fraction(0)), m]
+        # the expression, the carried dimensions and the carried scale must describe one unit
+        if coherent:
+            dim = 1
+            real1 = 1.0
+            for sc, d, e in zip(_U["rscale"], _U["rdim"], ue):
+                if e:
+                    real1 *= sc ** float(e)
+                    dim = dim * d ** sympy.Rational(e.numerator, e.denominator)
+            if units.dimensions != dim or units.base_offset:
+                coherent = False
+            bv = float(units.base_value)
+            sv = None
+            if coherent:
+                svs = []
+                for r in (1, 2):
+                    c = [Fraction(0)] * 4
+                    for e, pvv in zip(ue, _U["pvs"][r]):
+                        if e:
+                            for k in range(4):
+                                c[k] += e * pvv[k]
+                    svs.append(c)
+                factor = real1 / _qf(svs[0])  # pi / eV factors the model does not carry (they depend on the symbols only)
+                cands = ([_qin(model["sv"])] if model and model.get("k") == "l" else []) + svs
+                for c in cands:
+                    if math.isclose(bv, _qf(c) * factor, rel_tol=1e-11):
+                        sv = c
+                        break
+                if sv is None:
+                    coherent = False
+        if sv is None:
+            sv = [None] * 4
+    arr = np.asarray(x.d if not bare else x, dtype=float).ravel().tolist()
+    lv, si = [], []
+    for j, xv in enumerate(arr):
+        l = s = None
+        if model and model.get("k") == "l" and j < len(model["v"]) and xv > 0 and math.isfinite(xv):
+            c = _qin(model["v"][j])
+            if math.isclose(xv, _qf(c), rel_tol=RTOL):
+                l = c
+            c = _qin(model["rv"][j])
+            t = xv * bv
+            if math.isfinite(t) and math.isclose(t, _qf(c) * factor, rel_tol=RTOL):
+                s = c
+        lv.append(_qout(l if l is not None else [None] * 4))
+        si.append(_qout(s if s is not None else [None] * 4))
+    return {"k": "l", "bare": bool(bare), "ue": _qout(ue), "dq": _qout(dq), "sv": _qout(sv), "rg": rg, "lv": lv, "si": si}, bool(coherent)
+
+
 ZERO = None
 
 
@@ -269,6 +400,35 @@ def _exec(st, form, a, b):
     if op in ("divmod_q", "divmod_r"):
         r = np.divmod(a, b) if form == "uf" else divmod(a, b)
         return [("", r[0] if op == "divmod_q" else r[1])]
+    if op == "powerx":
+        uq = _U["uq"]
+        if form == "op":
+            return [("", a**pf)]
+        if form == "uf":
+            return [("", np.power(a, pf))]
+        if form == "op64":
+            return [("", a ** np.float64(pf))]
+        if form == "uf0d":
+            return [("", np.power(a, np.array(pf)))]
+        if form == "ufarr":
+            return [("", np.power(a, np.full(np.shape(a), pf)))]
+        if form == "ufq":
+            return [("", np.power(a, uq(pf, "dimensionless")))]
+        if form == "opq":
+            return [("", a ** uq(pf, "dimensionless"))]
+        if form == "iop":
+            t = a.copy()
+            t **= pf
+            return [("", t)]
+        if form == "outself":
+            t = a.copy()
+            r = np.power(t, pf, out=t)
+            return [("", t), (".ret", r)]
+        if form == "out":
+            o = _out_like(np.shape(a))
+            r = np.power(a, pf, out=o)
+            return [("", o), (".ret", r)]
+        raise ValueError("unknown form " + form)
     uf = getattr(np, op)
     if meth == "reduce":
         if form == "fn":
@@ -354,7 +514,7 @@ def _run(case, run, variant):
         form = forms[variant % len(forms)]
         ia, ib = st["a"], st["b"]
         pf = st["p"][0] / st["p"][1]
-        unary = st["op"] in ("negative", "positive", "absolute", "fabs", "sqrt", "cbrt", "square", "reciprocal", "sin", "cos", "tan", "sign", "power") or st["meth"] in ("reduce", "accumulate")
+        unary = st["op"] in ("negative", "positive", "absolute", "fabs", "sqrt", "cbrt", "square", "reciprocal", "sin", "cos", "tan", "sign", "power", "powerx") or st["meth"] in ("reduce", "accumulate")
         a = real[ia - 1] if ia else pf
         b = None if unary else (real[ib - 1] if ib else pf)
         oa = obs[ia - 1] if ia else _bare(st["p"])
@@ -383,6 +543,16 @@ def _run(case, run, variant):
                     mag = max(mag, float(np.max(np.abs(np.asarray(x)))))
                 except Exception:  # noqa: BLE001
                     pass
+        if st["op"] == "powerx":
+            first = None
+            for label, r in results:
+                o, coherent = _project_x(r, model[si + 2])
+                if first is None:
+                    first = o
+                events.append({"kind": "stepx", "op": st["op"], "meth": st["meth"], "form": form + label, "p": st["p"], "A": oa, "B": ob, "R": {k: o[k] for k in ("k", "bare", "ue", "dq", "sv", "rg", "lv", "si")}, "ucons": bool(coherent), "run": run, "variant": variant, "step": si})
+            real.append(None)  # a register in exponent space is not an operand of later steps
+            obs.append(first)
+            continue
         first = None
         for label, r in results:
             o, coherent = _project(r, model[si + 2], mag if st["op"] in ("sin", "cos", "tan", "add", "subtract", "dot", "remainder", "fmod", "divmod_r") or st["meth"] in ("reduce", "accumulate") else 0.0)
@@ -408,6 +578,8 @@ def observe(case):
         events += ea + eb
         errors += xa + xb
         for i in range(2, len(oa)):
-            if oa[i] is not None and ob[i] is not None:
+            if oa[i] is not None and ob[i] is not None and oa[i]["k"] == "l" and ob[i]["k"] == "l":
+                events.append({"kind": "reexx", "A": {"dq": oa[i]["dq"], "si": oa[i]["si"]}, "B": {"dq": ob[i]["dq"], "si": ob[i]["si"]}, "variant": variant, "step": i - 2, "op": case["steps"][i - 2]["op"]})
+            elif oa[i] is not None and ob[i] is not None:
                 events.append({"kind": "reex", "A": {"k": oa[i]["k"], "u": oa[i]["u"], "sv": oa[i]["sv"], "v": oa[i]["v"]}, "B": {"k": ob[i]["k"], "u": ob[i]["u"], "sv": ob[i]["sv"], "v": ob[i]["v"]}, "variant": variant, "step": i - 2, "op": case["steps"][i - 2]["op"]})
     return {"events": events, "errors": errors}
